@@ -255,6 +255,7 @@ def run(ctx, repo):
     ctx.rule('R2', 'every table key has the same membership in PAT_RUN / PAT_EVENT_CODE / PAT_RELAYS on both sides; __codesmap '
                    'indices point at the groups the Python names denote; the _gnorms maps correspond')
     ctx.rule('R3', 'predicate / constant fingerprints of each ported pair agree modulo the frozen idiom allowlist')
+    ctx.rule('R5', 'no parseInt of a numeric-typed argument in the JavaScript sources (int() truncates, parseInt stringifies first)')
     ctx.rule('R4', 'language-independent rules on the twin: no default number-to-string notation reaches roundUpStrNum')
     # ---- R1
     n_cells = 0
@@ -465,3 +466,70 @@ def run(ctx, repo):
                 else:
                     ctx.info('%s: notation of the roundUpStrNum argument not classified' % q)
     ctx.floor('JS callers of roundUpStrNum', n_calls, 1)
+
+    # ---- R5 parseInt of a number: Python's int() truncates; parseInt() converts its argument to text first, and a number below 1e-6
+    # (or from 1e21) is written in exponent notation, so parseInt(1e-7) is 1.  Every parseInt whose argument is numeric-typed is a
+    # divergence from the int() of the original
+    n_pi = 0
+    for modk, funs in jfun.items():
+        for q, fn in funs.items():
+            # skip nested duplicates: analyse each parseInt once, in its innermost named function
+            inner = [f2 for q2, f2 in funs.items() if f2 is not fn and any(x is f2 for x in jsast.jwalk(fn))]
+            inner_ids = {id(x) for f2 in inner for x in jsast.jwalk(f2)}
+            params = {p_['name'] for p_ in fn.get('params', []) if p_['type'] == 'Identifier'}
+            assigns = {}
+            arith_use = set()
+            for n in jsast.jwalk(fn):
+                if n['type'] == 'AssignmentExpression' and n['left']['type'] == 'Identifier':
+                    assigns.setdefault(n['left']['name'], []).append((n['operator'], n['right']))
+                if n['type'] == 'VariableDeclarator' and n['id']['type'] == 'Identifier' and n.get('init') is not None:
+                    assigns.setdefault(n['id']['name'], []).append(('=', n['init']))
+                if n['type'] == 'BinaryExpression' and n['operator'] in ('-', '*', '/', '%'):
+                    zero = any(x['type'] == 'Literal' and x.get('value') == 0 for x in (n['left'], n['right']))
+                    if not (n['operator'] == '-' and zero):          # `x - 0` is the coercion idiom: x may be text
+                        for x in (n['left'], n['right']):
+                            if x['type'] == 'Identifier':
+                                arith_use.add(x['name'])
+
+            def numeric(e, depth=0):
+                t = e['type']
+                if t == 'Literal':
+                    return isinstance(e.get('value'), (int, float)) and not isinstance(e.get('value'), bool)
+                if t == 'BinaryExpression':
+                    if e['operator'] in ('-', '*', '/', '%'):
+                        return True
+                    if e['operator'] == '+':
+                        return numeric(e['left'], depth) and numeric(e['right'], depth)
+                    return False
+                if t == 'UnaryExpression' and e['operator'] in ('-', '+'):
+                    return True
+                if t == 'CallExpression':
+                    nm = jsast.js_name(e['callee']) or ''
+                    return nm in ('parseFloat', 'Number') or nm.startswith('Math.')
+                if t == 'ConditionalExpression':
+                    return numeric(e['consequent'], depth) and numeric(e['alternate'], depth)
+                if t == 'Identifier' and depth < 4:
+                    nm = e['name']
+                    defs = assigns.get(nm, [])
+                    if nm in params:
+                        return nm in arith_use and all(numeric(r, depth + 1) for op, r in defs if op == '=')
+                    return bool(defs) and all(op != '=' or numeric(r, depth + 1) for op, r in defs) and any(op == '=' for op, r in defs)
+                return False
+            for n in jsast.jwalk(fn):
+                if id(n) in inner_ids:
+                    continue
+                if n['type'] == 'CallExpression' and jsast.js_name(n['callee']) == 'parseInt' and n['arguments']:
+                    n_pi += 1
+                    a = n['arguments'][0]
+                    if numeric(a):
+                        k_ = sum(1 for f_ in ctx.findings if f_.rule == 'R5' and f_.construct.startswith('%s::%s::' % (JS[modk], q))) + 1
+                        ctx.finding('R5', '%s::%s::parseInt of a number #%d' % (JS[modk], q, k_),
+                                    JS[modk], jsast.line(n),
+                                    '%s applies parseInt to a number: parseInt converts its argument to text first, and JavaScript writes numbers '
+                                    'below 1e-6 (and from 1e21) in exponent notation, so parseInt(1e-7) is 1 where Python\'s int() gives 0; the '
+                                    'port of int(x) is Math.trunc(x)' % q, 'formatSecondsAsTime(1e-7) is "1", format_seconds_as_time(1e-7) is "0"')
+    ctx.count('parseInt calls typed', n_pi)
+    ctx.floor('parseInt calls typed', n_pi, 3)
+    if not any(f.rule == 'R5' for f in ctx.findings):
+        ctx.ok('R5', 'no parseInt is applied to a numeric-typed argument (%d calls typed)' % n_pi)
+
